@@ -173,6 +173,109 @@ theorem C15_aligned_enclose (iv o l : Nat) (h : NoWrap iv o l) :
   · simp only [h0, if_false] at hE ⊢
     refine ⟨by omega, by omega, by omega, by omega, Nat.mod_eq_of_lt (by omega), Nat.mod_eq_of_lt (by omega)⟩
 
+/-- **C15, classification.** small note / preface / aligned parts / postface, processed in the
+    order the header documents, are exactly the non-empty parts of `all_parts()` — for every
+    offset, length (including 0) and interval of the no-wrap domain. -/
+theorem C15_classification (iv o l : Nat) (h : NoWrap iv o l) :
+    classified (fixedDiv iv) (init (fixedDiv iv) o l) =
+      (allParts (fixedDiv iv) (init (fixedDiv iv) o l)).filter (fun p => decide (0 < p.len)) := by
+  have hiv : 0 < iv := h.1
+  have hg : ∀ i, (fixedDiv iv).getLength i = iv := fun _ => rfl
+  obtain ⟨a, r, m, t, hrl, htl, ho, hrel, hbound, hsh⟩ := shape iv o l h
+  rcases hsh with ⟨hs, hinit⟩ | ⟨hs, hinit⟩
+  · -- one block
+    have hap : alignedParts (fixedDiv iv) (init (fixedDiv iv) o l) =
+        alignedFrom (fixedDiv iv) (a + (if r = 0 then 0 else 1)) (a + m - (a + (if r = 0 then 0 else 1))) := by
+      unfold alignedParts
+      rw [alignedPartsCount_eq _ (by rw [hinit]; show a + (if r = 0 then 0 else 1) < W; split <;> omega)
+        (by rw [hinit]; show a + m < W; omega), hinit]
+    have hall : allParts (fixedDiv iv) (init (fixedDiv iv) o l) = [⟨a, r, l⟩] := by
+      unfold allParts
+      rw [allPartsCount_eq _ (by rw [hinit]; show a ≤ a + 1; omega) (by rw [hinit]; show a + 1 < W; omega), hinit]
+      simp [partsFrom]
+    rw [hall]
+    unfold classified
+    rw [hap, hinit]
+    by_cases h0 : t = 0
+    · have hm : m = 1 := by simpa [h0] using hs
+      subst hm
+      by_cases hr0 : r = 0
+      · have hli : l = iv := by omega
+        simp [h0, hr0, alignedFrom, hg, hli, hiv]
+      · have hlp : 0 < l := by omega
+        simp [h0, hr0, alignedFrom, hlp]
+    · have hm : m = 0 := by simpa [h0] using hs
+      subst hm
+      by_cases hr0 : r = 0
+      · have hlp : 0 < l := by omega
+        simp [h0, hr0, alignedFrom, hlp]
+      · by_cases hlp : 0 < l
+        · simp [h0, hr0, hlp]
+        · have : l = 0 := by omega
+          simp [h0, hr0, alignedFrom, this]
+  · -- no block at all, or at least two
+    have hap : alignedParts (fixedDiv iv) (init (fixedDiv iv) o l) =
+        alignedFrom (fixedDiv iv) (a + (if r = 0 then 0 else 1)) (a + m - (a + (if r = 0 then 0 else 1))) := by
+      unfold alignedParts
+      rw [alignedPartsCount_eq _ (by rw [hinit]; show a + (if r = 0 then 0 else 1) < W; split <;> omega)
+        (by rw [hinit]; show a + m < W; omega), hinit]
+    have hcount : allPartsCount (init (fixedDiv iv) o l) = m + (if t = 0 then 0 else 1) := by
+      rw [allPartsCount_eq _ (by rw [hinit]; show a ≤ a + m + (if t = 0 then 0 else 1); omega)
+        (by rw [hinit]; show a + m + (if t = 0 then 0 else 1) < W; split <;> omega), hinit]
+      show a + m + (if t = 0 then 0 else 1) - a = _
+      omega
+    cases m with
+    | zero =>
+      -- m = 0 forces t = 0 here, hence r = 0 and l = 0: nothing at all
+      have h0 : t = 0 := by
+        by_cases h0 : t = 0
+        · exact h0
+        · simp [h0] at hs
+      have hr0 : r = 0 := by omega
+      unfold classified allParts
+      rw [hcount, hap, hinit]
+      simp [h0, hr0, alignedFrom]
+    | succ k =>
+      have hpost : (init (fixedDiv iv) o l).postface =
+          if t = 0 then ⟨0, 0, 0⟩ else ⟨a + (k + 1), 0, t⟩ := by rw [hinit]
+      have hparts := partsFrom_eq_aligned (fixedDiv iv) (init (fixedDiv iv) o l) (a + (k + 1)) t hpost
+        k (a + 1) (by omega) (by omega)
+      have hall : allParts (fixedDiv iv) (init (fixedDiv iv) o l) =
+          ⟨a, r, iv - r⟩ :: (alignedFrom (fixedDiv iv) (a + 1) k ++
+            (if t = 0 then [] else [⟨a + (k + 1), 0, t⟩])) := by
+        rw [← hparts]
+        unfold allParts
+        rw [hcount]
+        have hne : k + 1 + (if t = 0 then 0 else 1) ≠ 0 := by omega
+        have hsub : k + 1 + (if t = 0 then 0 else 1) - 1 = k + (if t = 0 then 0 else 1) := by omega
+        rw [if_neg hne, hsub]
+        congr 1
+        · rw [hinit]
+        · rw [hinit]; show partsFrom _ _ ((a + 1) % W) _ = _
+          rw [Nat.mod_eq_of_lt (by omega)]
+      have hpos : 0 < iv - r := by omega
+      have hfilt : (allParts (fixedDiv iv) (init (fixedDiv iv) o l)).filter (fun p => decide (0 < p.len)) =
+          allParts (fixedDiv iv) (init (fixedDiv iv) o l) := by
+        have hl : 0 < l := by rw [Nat.add_mul] at hrel; omega
+        exact filter_pos_of_Tiles iv _ _ _ (C15_tiling iv o l h hl).2.1
+      rw [hfilt, hall]
+      unfold classified
+      rw [hap, hinit]
+      by_cases hr0 : r = 0
+      · have e : a + (k + 1) - a = k + 1 := by omega
+        simp only [hr0, if_true, Nat.lt_irrefl, if_false, List.nil_append, Nat.sub_zero, Nat.add_zero, e]
+        rw [alignedFrom_succ _ _ _ (by omega), hg]
+        by_cases h0 : t = 0
+        · simp [h0]
+        · have : 0 < t := Nat.pos_of_ne_zero h0
+          simp [h0, this]
+      · have e : a + (k + 1) - (a + 1) = k := by omega
+        simp only [hr0, if_false, e, hpos, if_true, List.cons_append, List.nil_append]
+        by_cases h0 : t = 0
+        · simp [h0]
+        · have : 0 < t := Nat.pos_of_ne_zero h0
+          simp [h0, this]
+
 /-- **C15, power-of-two variant.** The shift/mask implementation computes exactly the same split,
     parts and aligned parts as the generic one, for every `k` (interval `2^k`), offset and length. -/
 theorem C15_power2_eq (k o l : Nat) :
@@ -196,5 +299,27 @@ theorem C15_tiling_power2 (k o l : Nat) (h : NoWrap (2 ^ k) o l) (hl : 0 < l) :
   intro ps
   have : ps = allParts (fixedDiv (2 ^ k)) (init (fixedDiv (2 ^ k)) o l) := (C15_power2_eq k o l).2.1
   rw [this]; exact C15_tiling (2 ^ k) o l h hl
+
+end Photon.RangeSplit
+
+namespace Photon.RangeSplit
+/-! ### non-vacuity and domain witnesses -/
+
+/-- the hypotheses of the theorems are satisfiable, and the header's own example evaluates as
+    documented -/
+example : NoWrap 32 100 36 ∧ 0 < 36 := by unfold NoWrap W; omega
+example : allParts (fixedDiv 32) (init (fixedDiv 32) 100 36) = [⟨3, 4, 28⟩, ⟨4, 0, 8⟩] := by decide
+example : classified (fixedDiv 32) (init (fixedDiv 32) 100 100) =
+    [⟨3, 4, 28⟩, ⟨4, 0, 32⟩, ⟨5, 0, 32⟩, ⟨6, 0, 8⟩] := by decide
+
+/-- regression for finding F10 (repaired): an empty range at an un-aligned offset has no aligned
+    part (before the repair `alignedPartsCount` was `2^64 - 1` here) -/
+example : alignedParts (fixedDiv 4) (init (fixedDiv 4) 5 0) = [] := by decide
+
+/-- outside the no-wrap domain the C++ `round_up` wraps: `(offset,length,interval) = (2^63,1,2^63)`
+    yields `aend = 0` and the part loop would run `2^64 - 1` times. File offsets are `off_t ≤ 2^63-1`,
+    so this is a domain note, not a finding. -/
+theorem C15_wrap_witness :
+    allPartsCount (init (fixedDiv (2 ^ 63)) (2 ^ 63) 1) = 2 ^ 64 - 1 := by decide
 
 end Photon.RangeSplit
